@@ -11,7 +11,7 @@ use rand_chacha::ChaCha20Rng;
 use rand_core::RngCore;
 use serde_json::json;
 
-pub const RULE: &str = "for every data type with byte conversions (26) x 2 groups x {bytes, serde_bare, serde_json}: take honest encodings (one per variant), locate every decoder-validated point inside the encoding, and replace it by (a) on-curve points OUTSIDE the prime-order subgroup (found by scanning x with the reference's unchecked decompression; 4 quick / 8 thorough per group, both y signs), (b) x-coordinates with no curve point, (c) flag-bit variants (compression bit cleared, infinity bit with non-zero body, sort bit on infinity, x >= p, all-ones), then decode. Plus (d) every truncation length of every encoding (a strict prefix must be rejected), +1/+32 extensions (must be rejected by the exact-length types: keys, proofs of possession, commitments, scalars), all-zero scalars through every byte importer, the encodings 0, 1, r-1, r, r+1, 2r, 2r+1, 2^255, 2^256-1 through all 15 scalar importers (whatever is accepted must be non-zero), and seeded random byte strings per decoder (2k quick / 40k thorough per suite). ORACLE (independent validator): whenever a decoder returns Ok, every point re-extracted from the returned value must classify as a subgroup point under the reference's checked decompression - lenient-but-safe decoding is NOT an alarm. Share containers hold unparsed payloads: the same bad payloads are planted in SignatureShare / PublicKeyShare / SignDecryptionShare / ElGamalDecryptionShare and every combining / verifying entry point must return an error. Distinct by (suite,type,codec,mutated bytes); non-trivial = the mutated input reached a decoder's point/scalar validation (counted separately: inputs the independent validator itself classifies, and how many decoders accepted). Sibling payloads: for every share type a point outside the subgroup whose encoding shares its first (resp. last) half with a valid payload is presented directly after that valid payload - as a further share in the same call, in the next call, and to the share verifier - and must be refused each time (validation at every use, whatever was validated before).";
+pub const RULE: &str = "for every data type with byte conversions (26) x 2 groups x {bytes, serde_bare, serde_json}: take honest encodings (one per variant), locate every decoder-validated point inside the encoding, and replace it by (a) on-curve points OUTSIDE the prime-order subgroup (found by scanning x with the reference's unchecked decompression; 4 quick / 8 thorough per group, both y signs), (b) x-coordinates with no curve point, (c) flag-bit variants (compression bit cleared, infinity bit with non-zero body, sort bit on infinity, x >= p, all-ones), then decode. Plus (d) every truncation length of every encoding (a strict prefix must be rejected), +1/+32 extensions (must be rejected by the exact-length types: keys, proofs of possession, commitments, scalars), all-zero scalars through every byte importer, the encodings 0, 1, r-1, r, r+1, 2r, 2r+1, 2^255, 2^256-1 through all 15 scalar importers (whatever is accepted must be non-zero), and seeded random byte strings per decoder (2k quick / 40k thorough per suite). ORACLE (independent validator): whenever a decoder returns Ok, every point re-extracted from the returned value must classify as a subgroup point under the reference's checked decompression - lenient-but-safe decoding is NOT an alarm. Share containers hold unparsed payloads: the same bad payloads are planted in SignatureShare / PublicKeyShare / SignDecryptionShare / ElGamalDecryptionShare and every combining / verifying entry point must return an error. Distinct by (suite,type,codec,mutated bytes); non-trivial = the mutated input reached a decoder's point/scalar validation (counted separately: inputs the independent validator itself classifies, and how many decoders accepted). Sibling payloads: for every share type a point outside the subgroup whose encoding shares its first (resp. last) half with a valid payload is presented directly after that valid payload - as a further share in the same call, in the next call, and to the share verifier - and must be refused each time (validation at every use, whatever was validated before). At validated point positions, substituted bytes that the reference cannot decode to a subgroup point (off-curve x, non-subgroup point, malformed flags incl. the infinity flag with any low bit set) must be refused outright - returning some valid point for them is a violation too.";
 
 pub fn run(ctx: &mut Ctx) {
     for_both!(run_suite, ctx);
@@ -157,7 +157,15 @@ impl<'a, C: Suite> Visitor<C> for V<'a> {
                         let mut e = enc.clone();
                         e[off..off + needle.len()].copy_from_slice(&rep);
                         let k = bkind.split('/').next().unwrap_or("bad").to_string();
-                        self.decode_and_judge::<C, T>(codec, &e, &k, false);
+                        // bytes the reference cannot decode to a subgroup point (off the curve, outside
+                        // the subgroup, malformed flags) must be REFUSED at a validated position -
+                        // mapping them to some valid point (e.g. the identity) is not decoding
+                        let class = match kind {
+                            PtKind::Sig => RSig::<C>::classify(&b),
+                            _ => RPk::<C>::classify(&b),
+                        };
+                        let must = !matches!(class, PointClass::Valid | PointClass::Identity);
+                        self.decode_and_judge::<C, T>(codec, &e, &k, must);
                         self.ctx.count(&format!("substituted/{bkind}"), 1);
                     }
                 }
